@@ -551,6 +551,8 @@ static void run_explore(void)
 	if (vk_opt("d4", &v)) d4 = atoi(v);
 	if (vk_opt("d8", &v)) d8 = atoi(v);
 	if (vk_opt("d16", &v)) d16 = atoi(v);
+	int d32 = d16 < 1 ? d16 : 1;
+	if (vk_opt("d32", &v)) d32 = atoi(v);
 	size_t vt_max = (size_t)1 << (vk_thorough ? 26 : 22);
 	if (vk_opt("vt", &v)) vt_max = (size_t)1 << atoi(v);
 	vt_cap = vt_max;
@@ -569,7 +571,7 @@ static void run_explore(void)
 		for (int d = 0; d < maxdepth; d++) { free(frames[d].img); frames[d].img = malloc(arena_size); if (pair_mode) { free(frames[d].imgB); frames[d].imgB = malloc(arena_size); } }
 		if (pair_mode) { free(curB); free(tmpA); curB = malloc(arena_size); tmpA = malloc(arena_size); }
 		free(pre_img); pre_img = malloc(arena_size);
-		int dmax = L <= 4 ? d4 : L <= 8 ? d8 : d16;
+		int dmax = L <= 4 ? d4 : L <= 8 ? d8 : L <= 16 ? d16 : d32;     /* 32 lanes (MD5 AVX-512): d = 2 alone costs 4 CPU-hours */
 		NLAM = vk_thorough && L <= 4 && !vk_opt("lam8", &v) ? 14 : 8;
 		vt_cap = L >= 8 ? vt_max : (vt_max > ((size_t)1 << 24) ? (size_t)1 << 24 : vt_max);     /* untouched pages of the big table cost nothing */
 		if (vk_want_trace) dmax = 0;
